@@ -84,6 +84,43 @@ func genC05(t *rapid.T) c05Case {
 			}
 		}
 	}
+	// a property with some sixty values, among them pairs that are spelled alike but are different values (the
+	// string "7" and the number 7, "true" and true): one value more or less - a repeated value - is surface form
+	if rapid.IntRange(0, 4).Draw(t, "manyValues") == 0 {
+		distinct := rapid.SampledFrom([]int{62, 63, 63, 64, 65, 130}).Draw(t, "manyDistinct")
+		vals := []m.Lit{m.I(7), m.S("7"), m.B(true), m.S("true")}
+		if rapid.Bool().Draw(t, "twinsLast") {
+			vals = nil
+		}
+		for i := 0; len(vals) < distinct-4; i++ {
+			vals = append(vals, m.S(fmt.Sprintf("m%d", i)))
+		}
+		if len(vals) < distinct {
+			vals = append(vals, m.S("7"), m.I(7), m.S("true"), m.B(true))
+		}
+		for _, n := range g.Nodes {
+			if n.HasType(classTest) && rapid.Bool().Draw(t, "hasMany") {
+				for _, l := range vals {
+					n.AddVal(m.NS+"many", m.LV(l))
+				}
+			}
+		}
+		vm := m.YMap()
+		vm.Set("targetClass", m.YStr("ex.Test"))
+		c := m.YMap()
+		switch rapid.IntRange(0, 3).Draw(t, "manyConstraint") {
+		case 0:
+			c.Set("maxCount", m.YInt(int64(distinct-1)))
+		case 1:
+			c.Set("minCount", m.YInt(int64(distinct)))
+		case 2:
+			c.Set("datatype", m.YStr("xsd.string"))
+		default:
+			c.Set("containsAll", m.YSeq(m.YInt(7), m.YStr("true"), m.YStr("m1")))
+		}
+		vm.Set("propertyConstraints", m.YMap().Set("ex.many", c))
+		text = appendValidation(text, "vmany", vm)
+	}
 	// scale: hundreds of inert nodes around the real ones (listing size is a surface property too); nodes that can
 	// never be focus nodes (no target class) may be blank nodes, whose labels are local to the document
 	genScale(t, g, 8)
